@@ -293,3 +293,38 @@ class IsPseudoComplex:
         cplx = self.is_complex_constraint()
         strict = self.is_strictcomplex_constraint()
         return implies(result, cplx) and implies(cplx, result != strict) and implies(not cplx, not result and not strict)
+
+
+# ------------------------------------------------------------------ the model-level listings of simple constraints
+@contract(FM, 'FeatureModel.get_requires_constraints', prop='C18')
+class GetRequiresConstraints:
+    """exactly the constraints in one of the documented requires forms, in model order"""
+    models = staticmethod(ctc_models)
+
+    def pre(self):
+        return all(c is not None and wf_node(c.ast.root) for c in self.ctcs)
+
+    def post(self, result):
+        return result == [c for c in self.ctcs if req_form(c.ast.root)]
+
+
+@contract(FM, 'FeatureModel.get_excludes_constraints', prop='C18')
+class GetExcludesConstraints:
+    models = staticmethod(ctc_models)
+
+    def pre(self):
+        return all(c is not None and wf_node(c.ast.root) for c in self.ctcs)
+
+    def post(self, result):
+        return result == [c for c in self.ctcs if exc_form(c.ast.root)]
+
+
+@contract(FM, 'FeatureModel.get_simple_constraints', prop='C18')
+class GetSimpleConstraints:
+    models = staticmethod(ctc_models)
+
+    def pre(self):
+        return all(c is not None and wf_node(c.ast.root) for c in self.ctcs)
+
+    def post(self, result):
+        return result == [c for c in self.ctcs if req_form(c.ast.root) or exc_form(c.ast.root)]
